@@ -29,6 +29,13 @@ import logging
 
 logger = logging.getLogger(__name__)
 
+# verification hook: with YLDPROLOG_VERIF=1 every Variable that is created is
+# recorded (weakly), so that a checker can inspect clause-local variables.
+_VERIF_VARIABLES = None
+if __import__('os').environ.get('YLDPROLOG_VERIF') == '1':
+    import weakref
+    _VERIF_VARIABLES = weakref.WeakSet()
+
 class YPException(Exception):
     '''Exception thrown by the engine.'''
     pass
@@ -83,6 +90,8 @@ class Variable(IUnifiable):
     a query."""
     def __init__(self):
         self._is_bound = False
+        if _VERIF_VARIABLES is not None:
+            _VERIF_VARIABLES.add(self)
     def get_value(self):
         """if the variable is bound, return the bound value, otherwise return the variable
         object itself. Will resolve the value recursively for variables that are bound to
